@@ -111,7 +111,8 @@ def run(tier, seed):
             if r[0] != 'ok' or prefs[j] is None or prefs[k + 1] is None:
                 st['removals_not_removable'] += 1
                 continue
-            if stab.get((si, 'full', None)) != stab.get(key) or const_lines(r[1]) != const_lines(full[1]):
+            # (a constant declared without a value prints no '#const' line and is no symbol, but later sentences read it: 'M = maxDay' / 'M = "maxDay"')
+            if stab.get((si, 'full', None)) != stab.get(key) or const_lines(r[1]) != const_lines(full[1]) or re.match(r'^\w+ is a constant\b', ss[k]):
                 st['removals_not_removable'] += 1       # the sentence introduces a signature or a constant
                 continue
             block = prefs[k + 1][len(prefs[j]):]
